@@ -214,6 +214,10 @@ def gen_raw(rng, qkind, ekind, colid):
     if qkind == 'str':
         if ekind == 'str':
             return rng.choice([f'{QNAMES[colid]}{base}', str(base), f'{base} {QNAMES[colid]}'])
+        if ekind == 'float' and rng.random() < 0.4:
+            # whole numbers from a tiny pool, sent as JSON integers or floats: equal values of different types in one column
+            whole = (colid + 1) * 1000 + rng.randint(0, 2)
+            return rng.choice([whole, float(whole)])
         return base if ekind == 'int' else base + rng.choice([0.25, 0.5])
     if qkind == 'bool':
         flag = rng.random() < 0.5
@@ -285,6 +289,11 @@ def build_case(rng, nquery, tokens):
     rows = [[enc(make()) for make in makers] for _ in range(rng.randint(1, 4))]
     route = rng.choice(ROUTES)
     case = {'kind': 'reader', 'q': query, 'entry': entry, 'rows': rows, 'impl': rng.choice(IMPLS), 'route': route}
+    if case['impl'] != 'dense':
+        # a client's data frame holds a Float-declared column as floats: what it sends for a whole number IS a float
+        floats = [j for j, (_, ekind) in enumerate(entry) if ekind == 'float']
+        case['rows'] = [[float(v) if j in floats and isinstance(v, int) and not isinstance(v, bool) else v for j, v in enumerate(row)]
+                        for row in rows]
     if route == 'slicer':
         if nquery < 2:
             case['route'] = 'table'
